@@ -3133,10 +3133,17 @@ func parseEgressRule(raw string) (EgressRule, bool) {
 	if raw == "" || strings.Contains(raw, "://") {
 		return EgressRule{}, false
 	}
+	// Addresses are matched in unmapped form, so a rule written in
+	// IPv4-mapped notation (::ffff:a.b.c.d[/n]) must be unmapped too or it
+	// would never match anything.
 	if pfx, err := netip.ParsePrefix(raw); err == nil {
+		if a := pfx.Addr(); a.Is4In6() && pfx.Bits() >= 96 {
+			pfx = netip.PrefixFrom(a.Unmap(), pfx.Bits()-96)
+		}
 		return EgressRule{CIDR: pfx, IsCIDR: true}, true
 	}
 	if addr, err := netip.ParseAddr(raw); err == nil {
+		addr = addr.Unmap()
 		return EgressRule{CIDR: netip.PrefixFrom(addr, addr.BitLen()), IsCIDR: true}, true
 	}
 
